@@ -785,6 +785,8 @@ func (p *Parser[V]) Parse(str string, idents Identifiers[V]) (ast AST, err error
 			SetComments(p.allowComments).
 			SetComfort(p.comfort).
 			Start()
+	// the tokenizer goroutine only terminates if all tokens are consumed
+	defer tokenizer.drain()
 
 	ast, err = p.parseLet(tokenizer, idents)
 	if err != nil {
